@@ -7,6 +7,10 @@ BASELINE_OFF = ("cd /repo && cargo nextest run --workspace --no-fail-fast --test
 
 # id -> (level, technique, design_ref, text, note)
 CHECKS = {
+ "C13": ("exploration", "bounded exhaustive enumeration of values per type (all single-member deviations) and of every instance of each document mutation operator, with differential oracles and an independent tokenizer, on the real public XML codec",
+         "DESIGN §4 C13",
+         "For each of the ~250 types with both directions: base value and every single-member deviation to depth 6 over the XML alphabets -> encode -> well-formed (xmlparser) and decode == value; on the encoded base and a populated value every instance of truncation, rename/duplicate/delete/swap of elements, unknown child, second root, text outside the root, CDATA / comment / PI / character-reference rewrites and scalar perturbation of each text node, judged differentially (accepted => well-formed; meaning-preserving rewrite => same value; structural change => never silently without effect).",
+         "values outside the alphabets and more than one (thorough: two) simultaneous deviations are not covered; decoding by an independent S3 client is C02/C03's half"),
  "C16": ("exploration", "full-product enumeration of request classes x configurations executed under a capturing TRACE subscriber, plus renderings of every credential-bearing public value; byte search for the secret in 8 spellings",
          "DESIGN §4 C16",
          "Every authentication path (accepted and each rejection path, incl. forms and chunk-signed uploads with mid-stream failures) under every relevant service configuration is executed with a thread-local subscriber that renders all events and span fields at TRACE; trace output, response head/body and backend-visible request are searched, as are Debug/serde renderings of SecretKey, Credentials, SimpleAuth and S3Request<Input> for all 96 operations.",
